@@ -81,7 +81,8 @@ std::optional<ChunkRecord> ChunkStore::get_record(const ChunkId& id) {
     }
 
     if (std::chrono::steady_clock::now() >= it->second.expires_at) {
-        chunks_.erase(it);
+        // Not served any more, but left in place for sweep_expired(): the sweep wipes a persisted file and reports
+        // the expiry, which a silent erase here would skip.
         return std::nullopt;
     }
 
